@@ -165,9 +165,9 @@ def generic_rules(body):
         op = h.end() - 1
         cl = match_brace(m, op)
         edits.append((h.start(), cl + 1, 'bump_alloc_layout(&%s, %s)' % (re.sub(r'\s+', '', h.group(1)), body[op + 1:cl].strip()), 'R8'))
-    # R7  V.sort_unstable() => vec_sort_unstable(&mut V)
+    # R7  V.sort_unstable() => V.sort_unstable_v()   (trait shim, prelude/sortv.rs)
     for h in re.finditer(r'\b([A-Za-z_]\w*)\s*\.\s*sort_unstable\(\)', m):
-        edits.append((h.start(), h.end(), 'vec_sort_unstable(&mut %s)' % h.group(1), 'R7'))
+        edits.append((h.start(), h.end(), '%s.sort_unstable_v()' % h.group(1), 'R7'))
     # overlapping edits (R1 inside R2 etc.) are not expected; keep the outermost
     edits.sort()
     out = []
@@ -212,6 +212,8 @@ class Contract:
             s = ln.strip()
             if s.startswith('//@source'):
                 _, self.src_file, self.fn_spec = s.split(None, 2)
+            elif s.startswith('//@note'):
+                continue
             elif s.startswith('//@wrap'):
                 self.wrap = s[len('//@wrap'):].strip()
             elif s.startswith('//@body'):
